@@ -246,6 +246,40 @@ def generate():
     fl, why = astlib.try_flag(module_threaded)
     out.append("Definition module_threaded_through_reader : bool := %s.%s" % (astlib.coq_bool(bool(fl)), "" if why is None else "  (* %s *)" % why.replace("*)", "* )")))
 
+    def eval_no_node_writes():
+        """evaluation does not write into the syntax-tree node it evaluates (nor into any other object it did not create) except
+        the documented `_compiled` memo: no attribute store, no store into an attribute's elements, no setattr, in the
+        evaluator methods of KlongInterpreter and in chain_adverbs"""
+        m = astlib.module("klongpy/interpreter.py")
+        cls = astlib.find_class(m, "KlongInterpreter")
+        fns = [astlib.find_func(cls, n) for n in ("eval", "call", "_eval_fn", "_resolve_fn", "__call__")] + [astlib.find_func(m, "chain_adverbs")]
+        bad = []
+        for fn in fns:
+            for n in ast.walk(fn):
+                tg = []
+                if isinstance(n, ast.Assign):
+                    tg = n.targets
+                elif isinstance(n, (ast.AugAssign, ast.AnnAssign)):
+                    tg = [n.target]
+                elif isinstance(n, ast.Delete):
+                    tg = n.targets
+                for t in tg:
+                    for e in (t.elts if isinstance(t, (ast.Tuple, ast.List)) else [t]):
+                        if isinstance(e, ast.Attribute) and not (isinstance(e.value, ast.Name) and e.value.id == "self") and e.attr != "_compiled":
+                            bad.append("%s line %d: %s" % (fn.name, n.lineno, ast.unparse(n)[:50]))
+                        if isinstance(e, ast.Subscript) and isinstance(e.value, ast.Attribute) and not ast.unparse(e.value).startswith("self."):
+                            bad.append("%s line %d: %s" % (fn.name, n.lineno, ast.unparse(n)[:50]))
+                if isinstance(n, ast.Call) and isinstance(n.func, ast.Name) and n.func.id in ("setattr", "delattr"):
+                    bad.append("%s line %d: %s" % (fn.name, n.lineno, ast.unparse(n)[:50]))
+                if isinstance(n, ast.Call) and isinstance(n.func, ast.Attribute) and isinstance(n.func.value, ast.Attribute) \
+                        and not ast.unparse(n.func.value).startswith("self.") and n.func.attr in ("append", "extend", "insert", "pop", "remove", "clear", "reverse", "sort", "update"):
+                    bad.append("%s line %d: %s" % (fn.name, n.lineno, ast.unparse(n)[:50]))
+        if bad:
+            raise ShapeError("evaluation writes into nodes: " + "; ".join(bad[:3]))
+        return True
+    fl, why = astlib.try_flag(eval_no_node_writes)
+    out.append("Definition eval_does_not_write_nodes : bool := %s.%s" % (astlib.coq_bool(bool(fl)), "" if why is None else "  (* %s *)" % why.replace("*)", "* )")))
+
     def parse_key():
         m = astlib.module("klongpy/interpreter.py")
         cls = astlib.find_class(m, "KlongInterpreter")
@@ -475,8 +509,11 @@ def experiment(stmts):
         rec["preB"] = csnap(B)
         rec["pre"] = pre
         m0 = modes()
+        pc0 = {repr(key): sx(fcanon(tree)) for key, tree in A._parse_cache.items()}
         rec["rA"] = run_stmt(A, text)
         m1 = modes()
+        pc1 = {repr(key): sx(fcanon(tree)) for key, tree in A._parse_cache.items()}
+        rec["trees_changed"] = {key: (pc0[key][:200], pc1.get(key, "<gone>")[:200]) for key in pc0 if pc1.get(key) != pc0[key]}
         rec["modes_changed"] = {k_: (m0[k_], m1[k_]) for k_ in m0 if m0[k_] != m1[k_]}
         rec["rB"] = run_stmt(B, text)
         m2 = modes()
@@ -571,7 +608,14 @@ POOL_VERBS = ['s::[-1 2]', 'd::s:^!10', 'd::s:^!6', 's', 'h5::{[-1 2]:^x}', 'h5(
 # statements that overflow or fail inside numeric code, followed by overflowing array arithmetic
 POOL_NUM = ['2^5000', '[2 3]^5000', 'w::10.0^[1 400]', '{x^y}(7;1000)', '"a"^2', '1%0', 'v::[1.0e308 2.0 -1.5e308]', 'v*10', 'v+v', '*/v', '+/v', 'v^2', 'v%0',
             '1.0e308*10', '2^0.5', '(-1)^0.5', '_1.0e100', 'v-v', 'w']
-POOLS = [POOL_DATA, POOL_VIEW, POOL_AMEND, POOL_FN, POOL_EXPR, POOL_OBJ, POOL_RED, POOL_DICT, POOL_MIX, POOL_VERBS, POOL_VERBS, POOL_NUM]
+# projections with NON-constant arguments: defined, the variables reassigned, the same defining text re-evaluated, then applied
+POOL_PROJ = ['add::{x+y}', 'a::1', 'a::5', 'a::[1 2]', 'b::7', 'b::2', 'g::add(a;)', 'g(10)', 'g::add(;a)', 'hh::{add(x;)}', 'pp::hh(2)', 'pp::hh(a)', 'pp(10)',
+             'f3::{x,y,z}', 'q1::f3(a;;)', 'q2::q1(;b)', 'q2(0)', 'q1(8;9)', 'h6::{[t];t::add(x*2;);t(1)}', 'h6(3)', 'h6(a)', 'q3::{f3(a;x;)}', 'q4::q3(b)', 'q4(0)',
+             'g', 'q1', 'q2', 'pp']
+# dictionary literals inside list literals (directly and nested), in function bodies and as repeated texts, with in-place updates between
+POOL_DICTLIST = ['mk::{[7 :{[1 2]}]}', 'aa::mk()', '(aa@1),[1 99]', 'bb::mk()', '(bb@1)?1', 'u::[:{[1 2] [3 4]}]', 'ww::u', '1_ww@0', '(ww@0),[5 6]', 'u',
+                 'mk2::{[[1 2] [:{["k" 0]} 3]]}', 'aa::mk2()', 'dq::aa:@[1 0]', 'dq,"k",,5', 'mk2()', '[7 :{[1 2]}]', 'e3::[7 :{[1 2]}]', '(e3@1),[1 42]', 'e3']
+POOLS = [POOL_PROJ, POOL_DICTLIST, POOL_DATA, POOL_VIEW, POOL_AMEND, POOL_FN, POOL_EXPR, POOL_OBJ, POOL_RED, POOL_DICT, POOL_MIX, POOL_VERBS, POOL_VERBS, POOL_NUM]
 
 DIRECTED = [
     ['f::{1,x*y}', 'f(2;3)', 'f("ab";3)'],
@@ -587,6 +631,10 @@ DIRECTED = [
     ['f::{[1 2 3]}', 'c::f()', 'd::c:=9,0', 'f()'],
     ['a::[]', '+/a', 'a::[1 2]', '+/a', 'a::[]', '+/a'],
     ['avg::{(+/x)%#x}', 'avg([1 2 3])', 'avg([])'],
+    ['add::{x+y}', 'a::1', 'g::add(a;)', 'g(10)', 'a::5', 'g::add(a;)', 'g(10)', 'hh::{add(x;)}', 'pp::hh(2)', 'pp(10)', 'pp::hh(7)', 'pp(10)'],
+    ['f3::{x,y,z}', 'a::1', 'b::2', 'q1::f3(a;;)', 'q2::q1(;b)', 'q2(0)', 'a::8', 'b::9', 'q1::f3(a;;)', 'q2::q1(;b)', 'q2(0)', 'h6::{[t];t::f3(x;;);t(1;2)}', 'h6(3)', 'h6(4)'],
+    ['mk::{[7 :{[1 2]}]}', 'aa::mk()', '(aa@1),[1 99]', 'bb::mk()', '(bb@1)?1', 'u::[:{[1 2] [3 4]}]', 'ww::u', '(ww@0),[5 6]', 'u::[:{[1 2] [3 4]}]', 'u'],
+    ['mk2::{[[1 2] [:{["k" 0]} 3]]}', 'aa::mk2()', 'dq::aa:@[1 0]', 'dq,"k",,5', 'mk2()', '[7 :{[1 2]}]', 'e3::[7 :{[1 2]}]', '(e3@1),[1 42]', '[7 :{[1 2]}]'],
     ['s::[-1 2]', 'd::s:^!10', 's', 'd::s:^!6', 'h5::{[-1 2]:^x}', 'h5(!10)', 'h5(!6)', 't2::[2 -1]', 'd::t2:^!8', 't2::[2 -1]', 'u::[-1 2 7]', 'd::(2#u):^!12', 'u'],
     ['v::[1.0e308 2.0 -1.5e308]', 'v*10', '2^5000', 'v*10', '"a"^2', 'v+v', '*/v', '{x^y}(7;1000)', 'v*10'],
     ['k::{,x=y}', 'k(1;2)', 'k([[1] 2];[[1] 2])', 'k([[1] 2];[[1] 3])'],
@@ -801,6 +849,11 @@ def property_oracle(chk, seq, recs, kind, bad_props):
             chk.count("skipped_unloadable_state")
             return
         switch = r["text"].lstrip().startswith(".module")
+        if r.get("trees_changed"):
+            bad_props.append({"kind": "statement %d `%s` wrote into a cached syntax tree (the parse cache entry of a text changed; later evaluations of that text differ from a fresh parse): %s" % (
+                i, r["text"], str(r["trees_changed"])[:400]), "family": kind, "statements": seq, "at": i,
+                "results_A": [x["rA"][:80] for x in recs], "results_B": [x["rB"][:80] for x in recs]})
+            return
         if r.get("modes_changed"):
             bad_props.append({"kind": "statement %d `%s` changed process-wide state shared by every interpreter (later evaluations of any text can differ): %s" % (
                 i, r["text"], str(r["modes_changed"])[:300]), "family": kind, "statements": seq, "at": i,
